@@ -118,9 +118,26 @@ def structure(rep, F, tag):
                 if c.callee.name == 'div':
                     a = [canon(f.sym_operand(x)) for x in c.args]
                     if a[0] in ('arg3.equilibrate_min_scaling', 'arg3.equilibrate_max_scaling'):
-                        R.check(c.bb in loops[rh], 'bound-recomputed|%s|%s%s' % (a[0].split('_')[1], a[1][-20:], tag),
-                                'the bound %s/%s is computed outside the Ruiz loop: it uses the cumulative factor of the first iteration, so '
-                                'the cumulative scaling is bounded per iteration only' % (a[0].split('.')[1], a[1]), f.loc(c.sp))
+                        # the division and the read of the cumulative factor it divides by both sit inside the loop
+                        # (a by-value copy taken before the loop is symbolically identical but stale)
+                        stale = False
+                        pl = c.args[1].get('c') or c.args[1].get('m')
+                        seen_l = set()
+                        while pl is not None and not pl['p'] and pl['l'] not in seen_l:
+                            seen_l.add(pl['l'])
+                            ds = f.defs.get(pl['l'], [])
+                            if any(d[1] not in loops[rh] for d in ds):
+                                stale = True
+                                break
+                            nxt = None
+                            if len(ds) == 1 and ds[0][0] == 's':
+                                rv = f.blocks[ds[0][1]]['s'][ds[0][2]]['rv']
+                                if rv['k'] == 'use':
+                                    nxt = rv['a'].get('c') or rv['a'].get('m')
+                            pl = nxt
+                        R.check(c.bb in loops[rh] and not stale, 'bound-recomputed|%s|%s%s' % (a[0].split('_')[1], a[1][-20:], tag),
+                                'the bound %s/%s is computed outside the Ruiz loop or from a copy of the cumulative factor taken outside it: it uses the '
+                                'cumulative factor of the first iteration, so the cumulative scaling is bounded per iteration only' % (a[0].split('.')[1], a[1]), f.loc(c.sp))
         # cost scaling: the factor that multiplies P and q is bounded by (min/c, max/c) with the current cumulative c
         # (that P, q and c receive the same factor is the units invariant C10.R1)
         cost = [l for l in leaves if any(e[0] == 'call' and e[1] == 'scale' and e[2].startswith('scale(self.P,') for e in l[2])]
